@@ -110,11 +110,6 @@ def free_string(ch, forbid="", lookalike_ok=True, multiline_ok=True, empty_ok=Tr
     return ch.choice(WORDS), "word"
 
 
-@st.composite
-def _noop(draw):
-    return None
-
-
 def schema_keywords():
     kws = set()
     for t in vocab.all_types():
